@@ -92,6 +92,21 @@ type MapNul struct {
 	Keys   []string
 	Values map[string]*string
 }
+
+// struct values with an optional field and a list: what one entry holds must not reach the next entry
+type OptIn struct {
+	Name string
+	Tag  *string
+	L    []string
+}
+type MapSO struct {
+	Keys   []string
+	Values map[string]OptIn
+}
+type MapOuter struct {
+	Keys   []string
+	Values map[string]Outer
+}
 type MapAny struct {
 	Keys   []string
 	Values map[string]datamodel.Node
@@ -290,6 +305,9 @@ type ListList struct { L [[String]] }
 type MapSI {String:Int}
 type MapSS {String:Inner}
 type MapNul {String:nullable String}
+type OptIn struct { Name String Tag optional String L [String] }
+type MapSO {String:OptIn}
+type MapOuter {String:Outer}
 type MapAny {String:Any}
 type HasMap struct { M MapSI N String }
 type UKeyed union { | String "s" | Int "i" | Inner "in" } representation keyed
@@ -371,6 +389,9 @@ var typeTable = []typeEntry{
 	{"MapSI", (*MapSI)(nil), "MapSI"},
 	{"MapSS", (*MapSS)(nil), "MapSS"},
 	{"MapNul", (*MapNul)(nil), "MapNul"},
+	{"OptIn", (*OptIn)(nil), "OptIn"},
+	{"MapSO", (*MapSO)(nil), "MapSO"},
+	{"MapOuter", (*MapOuter)(nil), "MapOuter"},
 	{"MapAny", (*MapAny)(nil), "MapAny"},
 	{"HasMap", (*HasMap)(nil), "HasMap"},
 	{"UKeyed", (*UKeyed)(nil), "UKeyed"},
